@@ -123,6 +123,28 @@ def _fft_models():
 
 
 
+def mk_seq(interp, n, k, body, kind, ekind, nbody=None):
+    """sequence of length n whose k-th element is `body` (a z3 term over the bound constant k): a named array constant with
+    its definitional axiom in the path condition and the definition kept for eager beta reduction"""
+    ctx = interp.ctx
+    if os.environ.get("PYVC_LAMBDA"):
+        return SSeq(n, z3.Lambda([k], body), kind, ekind, z3.Lambda([k], nbody) if nbody is not None else None)
+    name = fresh("arr")
+    A = z3.Const(name, z3.ArraySort(z3.IntSort(), body.sort()))
+    rng = z3.And(0 <= k, k < tz(n))
+    ctx._add(z3.ForAll([k], z3.Implies(rng, z3.Select(A, k) == body), patterns=[z3.Select(A, k)]))
+    seq = SSeq(n, A, kind, ekind, None)
+    seq.defn = (k, body)
+    seq._defn_arr = A
+    if nbody is not None:
+        N = z3.Const(name + ".none", z3.ArraySort(z3.IntSort(), z3.BoolSort()))
+        ctx._add(z3.ForAll([k], z3.Implies(rng, z3.Select(N, k) == nbody), patterns=[z3.Select(N, k)]))
+        seq.none = N
+        seq.defn_none = (k, nbody)
+        seq._defn_none_arr = N
+    return seq
+
+
 def kind_of(v):
     if isinstance(v, (bool, SBool)):
         return "bool"
@@ -670,18 +692,16 @@ class Lib:
                 a, b = self.slice_bounds(interp, n, lo, hi, st, node)
                 ln = Ite(compare(">", b, a), arith("-", b, a), 0)
                 k = z3.Int(fresh("sl"))
-                arr = z3.Lambda([k], _ssel(obj, 'arr', k + tz(a)))
-                none = z3.Lambda([k], _ssel(obj, 'none', k + tz(a))) if obj.none is not None else None
-                out = SSeq(ln, arr, obj.kind, obj.ekind, none)
+                out = mk_seq(interp, ln, k, _ssel(obj, 'arr', k + tz(a)), obj.kind, obj.ekind,
+                             _ssel(obj, 'none', k + tz(a)) if obj.none is not None else None)
                 out.slice_of = (obj.arr, obj.length, a, b)
                 return out
             if isinstance(st, int) and st > 1 and (lo is None or isinstance(lo, (int, SInt))) and hi is None:
                 a, b = self.slice_bounds(interp, n, lo, hi, None, node)
                 ln = Ite(compare(">", b, a), arith("+", arith("//", arith("-", arith("-", b, a), 1), st), 1), 0)
                 k = z3.Int(fresh("sl"))
-                arr = z3.Lambda([k], _ssel(obj, 'arr', k * st + tz(a)))
-                none = z3.Lambda([k], _ssel(obj, 'none', k * st + tz(a))) if obj.none is not None else None
-                return SSeq(ln, arr, obj.kind, obj.ekind, none)
+                return mk_seq(interp, ln, k, _ssel(obj, 'arr', k * st + tz(a)), obj.kind, obj.ekind,
+                              _ssel(obj, 'none', k * st + tz(a)) if obj.none is not None else None)
             if isinstance(st, SInt) and hi is None:
                 # a[lo::st] with a symbolic positive step: k-th element is a[lo + k*st]
                 ctx = interp.ctx
@@ -691,9 +711,8 @@ class Lib:
                 ln = Ite(compare(">", b, a), arith("+", arith("//", arith("-", arith("-", b, a), 1), st), 1), 0)
                 k = z3.Int(fresh("sl"))
                 idx = tz(arith("+", a, arith("*", SInt(k), st)))
-                arr = z3.Lambda([k], _ssel(obj, 'arr', idx))
-                none = z3.Lambda([k], _ssel(obj, 'none', idx)) if obj.none is not None else None
-                return SSeq(ln, arr, obj.kind, obj.ekind, none)
+                return mk_seq(interp, ln, k, _ssel(obj, 'arr', idx), obj.kind, obj.ekind,
+                              _ssel(obj, 'none', idx) if obj.none is not None else None)
             if st == -1:
                 # a[lo:hi:-1]
                 nm1 = arith("-", n, 1)
@@ -711,9 +730,8 @@ class Lib:
                     pass
                 ln = Ite(compare(">", a, b), arith("-", a, b), 0)
                 k = z3.Int(fresh("sl"))
-                arr = z3.Lambda([k], _ssel(obj, 'arr', tz(a) - k))
-                none = z3.Lambda([k], _ssel(obj, 'none', tz(a) - k)) if obj.none is not None else None
-                return SSeq(ln, arr, obj.kind, obj.ekind, none)
+                return mk_seq(interp, ln, k, _ssel(obj, 'arr', tz(a) - k), obj.kind, obj.ekind,
+                              _ssel(obj, 'none', tz(a) - k) if obj.none is not None else None)
         interp.err(node, "slice %r[%r:%r:%r]" % (type(obj).__name__, lo, hi, st))
 
     def to_sseq(self, interp, cl, node):
@@ -1022,8 +1040,8 @@ class Lib:
             nb = nsel(parts[-1], k - tz(offs[-1]))
             for p, o, nxt in zip(reversed(parts[:-1]), reversed(offs[:-1]), reversed(offs[1:])):
                 nb = z3.If(k < tz(nxt), nsel(p, k - tz(o)), nb)
-            none = z3.Lambda([k], nb)
-        return SSeq(total, z3.Lambda([k], body), kind, ek, none)
+            none = nb
+        return mk_seq(interp, total, k, body, kind, ek, none)
 
     # ------------------------------------------------------------ comparisons on non-scalars
     def seq_equal(self, interp, a, b, node):
@@ -1486,7 +1504,7 @@ class Lib:
             if x.arr is not None:
                 return SSeq(n, x.arr, "list", "int")
             k = z3.Int(fresh("rl"))
-            return SSeq(n, z3.Lambda([k], tz(x.start) + k * tz(x.step)), "list", "int")
+            return mk_seq(interp, n, k, tz(x.start) + k * tz(x.step), "list", "int")
         items = self.try_iterate_concrete(interp, x, node)
         if items is not None:
             return CList(items, "list")
@@ -1854,7 +1872,7 @@ class Lib:
         if isinstance(x, SSeq):
             k = z3.Int(fresh("df"))
             n = Ite(compare(">", x.length, 0), arith("-", x.length, 1), 0)
-            return SSeq(n, z3.Lambda([k], _ssel(x, 'arr', k + 1) - _ssel(x, 'arr', k)), "ndarray", x.ekind)
+            return mk_seq(interp, n, k, _ssel(x, 'arr', k + 1) - _ssel(x, 'arr', k), "ndarray", x.ekind)
         interp.err(node, "np.diff(%r)" % (x,))
 
     def f_np__min(self, interp, args, kwargs, node):
